@@ -88,21 +88,16 @@ Fixpoint strict (lo hi : list ext) : bool :=
   | _, _ => false
   end.
 
+(* EEmptyRegion: `np.min` of an empty region; raised by the code before the fix "falls back to the default levels
+   when the droplet covers no grid point" -- the model never returns it (kept so that such a run can be written down) *)
 Inductive rerr := EInfeasible | EBoundsNotStrict | EDimMismatch | EEmptyRegion | EShape.
 Inductive rres := ROk (d : droplet) | RErr (e : rerr).
 
 (* minimum and maximum of the image over the fit region; None: the region has no cell *)
 Definition stats := option (Q * Q).
 
-(* `if vmin is None: vmin = np.min(data_mask)` raises on an empty region *)
-Definition levels (vmin vmax : option Q) (st : stats) : option (Q * Q) :=
-  match st with
-  | Some (mn, mx) => Some (level_min vmin mn mx, level_max vmax mn mx)
-  | None => match vmin, vmax with
-            | Some _, Some _ => Some (level_min vmin 0 0, level_max vmax 0 0)
-            | _, _ => None
-            end
-  end.
+(* effective intensity levels: given, or min / max of the data, or the defaults for an empty region *)
+Definition levels (vmin vmax : option Q) (st : stats) : Q * Q := (level_min vmin st, level_max vmax st).
 
 (* what refine_droplet has assembled when it reaches the optimiser *)
 Record prepared := {
@@ -126,16 +121,13 @@ Definition prepare (g : rgrid) (st : stats) (vmin_o vmax_o : option Q) (adjust :
   let free := free_mask num (constraints g) in
   let '(l, h) := data_bounds (d_cls p) dim (length (d_amp p)) num in
   let '(b0, b1) := fit_bounds free l h in
-  match levels vmin_o vmax_o st with
-  | None => inl EEmptyRegion
-  | Some (vmin, vmax) =>
-      let vrng := vrng_of vmin vmax in
-      let '(x0, (lo, hi)) :=
-        if adjust then (start_adjust free data_flat vmin vmax vrng, bounds_adjust b0 b1 vmin vmax vrng)
-        else (start_plain free data_flat, (b0, b1)) in
-      inr {| p_drop := p; p_dim := dim; p_width := w; p_flat := data_flat; p_free := free;
-             p_vmin := vmin; p_vmax := vmax; p_vrng := vrng; p_x0 := x0; p_lo := lo; p_hi := hi |}
-  end.
+  let '(vmin, vmax) := levels vmin_o vmax_o st in
+  let vrng := vrng_of vmin vmax in
+  let '(x0, (lo, hi)) :=
+    if adjust then (start_adjust free data_flat vmin vmax vrng, bounds_adjust b0 b1 vmin vmax vrng)
+    else (start_plain free data_flat, (b0, b1)) in
+  inr {| p_drop := p; p_dim := dim; p_width := w; p_flat := data_flat; p_free := free;
+         p_vmin := vmin; p_vmax := vmax; p_vrng := vrng; p_x0 := x0; p_lo := lo; p_hi := hi |}.
 
 (* the checks of scipy.optimize.least_squares before it starts, in its order *)
 Definition lsq_precondition (x0 : list Q) (lo hi : list ext) : option rerr :=
